@@ -1,7 +1,7 @@
 ------------------------------- MODULE InfluxQL -------------------------------
 (* C22 - reference semantics of an InfluxQL SELECT subset, written as a TLA+ evaluator.                       *)
 (*                                                                                                            *)
-(*   SELECT v | agg(v) | selector(v)  FROM m                                                                  *)
+(*   SELECT v | f(v) | f(v), g(v)  FROM m         (f, g in count sum mean min max first last)                 *)
 (*   WHERE time >= tlo AND time < thi AND host (=|!=) 'x' AND v (>|>=|<|<=|=|!=) k                             *)
 (*   GROUP BY time(w [, off]) [, host]  fill(null | none | previous | <n>)                                    *)
 (*   ORDER BY time DESC   LIMIT n OFFSET n   SLIMIT n SOFFSET n                                               *)
@@ -34,6 +34,9 @@
 (*    (row omitted), previous (value of the previous row of the same series IN OUTPUT ORDER, null if none),    *)
 (*    <n>.  count() fills with 0 under fill(null).                                                            *)
 (*  - LIMIT/OFFSET apply per output series, after fill and ordering.                                          *)
+(*  - with two calls in the SELECT list a row is <<t, num1, den1, num2, den2>>: every row carries the lower    *)
+(*    time bound / the epoch / the window start (a selector no longer gives its point's time), fill works      *)
+(*    column by column (count() fills with 0 under fill(null), previous takes each column's previous value).  *)
 (* GROUP BY time is only generated with both time bounds (an open upper bound means now()); OFFSET only with    *)
 (* LIMIT and SOFFSET only with SLIMIT (the reference documents both requirements: results are otherwise          *)
 (* "inconsistent", which the probes confirm).                                                                  *)
@@ -176,9 +179,24 @@ SeriesRows(qq, P) ==
            rows == [k \in 1..Len(wsq) |-> LET v == WinValue(qq, P, wsq[k]) IN <<wsq[k], v[1], v[2]>>]
        IN FillRows(qq, rows, <<0, 0>>)
 
+\* one value of a call over a non-empty set of points
+CallValue(sel, P) == IF IsSelector(sel) THEN <<V(PickTV(sel, P)), 1>> ELSE AggValue(sel, P)
+\* two calls: both columns see the same points, so the same windows are empty and the single-column row
+\* sequences (fill included) have the same times
+SeriesRows2(qq, P) ==
+  IF qq.sel2 = "none" THEN SeriesRows(qq, P)
+  ELSE IF P = {} THEN <<>>
+  ELSE IF qq.w = 0
+       THEN LET a == CallValue(qq.sel, P)
+                b == CallValue(qq.sel2, P)
+            IN <<<<IF qq.tlo >= 0 THEN qq.tlo ELSE Epoch, a[1], a[2], b[1], b[2]>>>>
+  ELSE LET r1 == SeriesRows(qq, P)
+           r2 == SeriesRows([qq EXCEPT !.sel = qq.sel2], P)
+       IN [k \in 1..Len(r1) |-> <<r1[k][1], r1[k][2], r1[k][3], r2[k][2], r2[k][3]>>]
+
 Eval(d, qq) ==
   LET cs == Candidates(d, qq)
-      one(hs) == LET rows == LimitRows(qq, SeriesRows(qq, PointsOf(d, qq, hs)))
+      one(hs) == LET rows == LimitRows(qq, SeriesRows2(qq, PointsOf(d, qq, hs)))
                  IN IF rows = <<>> THEN <<>>
                     ELSE <<<<IF qq.gtag THEN CHOOSE h \in hs : TRUE ELSE "", rows>>>>
       out == Flatten([k \in 1..Len(cs) |-> one(cs[k])])
@@ -204,6 +222,7 @@ MkQuery(r) ==
       sl == IF r[17] % 4 = 0 THEN 1 + (r[18] % 2) ELSE 0
       lim == IF r[21] % 3 = 0 THEN 1 + (r[22] % 3) ELSE 0
   IN [sel |-> sel,
+      sel2 |-> IF sel # "raw" /\ r[3] % 4 = 3 THEN Sels[(r[1] % 7) + 2] ELSE "none",
       tlo |-> lo, thi |-> hi,
       tagop |-> Pick1(r, 9, <<"none", "none", "none", "eq", "ne">>),
       tagv |-> Pick1(r, 10, <<"a", "b", "c", "a", "b", "c", "zz">>),
@@ -226,7 +245,7 @@ Normalize(d, qq) == IF qq.sel = "raw" /\ (qq.limit > 0 \/ qq.offset > 0) /\ HasT
 FocusFill(r, qq) ==
   LET wnd == Pick1(r, 4, <<2, 3, 4, 5, 2, 3>>)
       lo == r[6] % 4
-  IN [qq EXCEPT !.sel = Sels[(r[2] % 7) + 2], !.w = wnd, !.off = IF r[13] % 3 = 0 THEN (r[14] % 5) - 2 ELSE 0,
+  IN [qq EXCEPT !.sel = Sels[(r[2] % 7) + 2], !.sel2 = IF r[3] % 2 = 0 THEN Sels[(r[1] % 7) + 2] ELSE "none", !.w = wnd, !.off = IF r[13] % 3 = 0 THEN (r[14] % 5) - 2 ELSE 0,
                 !.tlo = lo, !.thi = 12 - (r[8] % 3), !.gtag = TRUE,
                 !.fill = Pick1(r, 16, <<"previous", "previous", "num", "null">>),
                 !.tagop = "none", !.fop = IF r[11] % 4 = 0 THEN "gt" ELSE "none", !.fk = (r[12] % 5) - 2,
@@ -294,7 +313,7 @@ CountConservation ==
      IN SumCol2(AllRows) = tot
 \* fill(none) returns exactly the non-filled rows of fill(null) (sum: a null row is a filled row)
 FillNoneIsSubset ==
-  (q.w > 0 /\ q.sel = "sum" /\ q.limit = 0 /\ q.offset = 0 /\ n > 0 /\ phase = "p1") =>
+  (q.w > 0 /\ q.sel = "sum" /\ q.sel2 = "none" /\ q.limit = 0 /\ q.offset = 0 /\ n > 0 /\ phase = "p1") =>
      LET a == Eval(data, [q EXCEPT !.fill = "none"])
          b == Eval(data, [q EXCEPT !.fill = "null"])
          NonNull(rows) == LET Keep(r) == r[3] # 0 IN SelectSeq(rows, Keep)
